@@ -52,6 +52,7 @@ func init() {
 			{ID: "C17.R6", Floor: 3, Doc: "stop handshakes pair (bare send on quit vs. returns of the receiving loop)", Run: c06r8},
 			{ID: "C17.R7", Floor: 40, Doc: "guarded-field tables: Session, queryMetrics, routingKeyInfoLRU, debouncers, errorBroadcaster", Run: func(p *Program, r *Report) { checkGuardedFields(p, r, sessionGuards) }},
 			{ID: "C17.R8", Floor: 3, Doc: "stoppable services: work is accepted (a listener registered, a timer armed) only after testing the stopped flag under the same lock, and the stopping side releases what was registered", Run: c17r8},
+			{ID: "C17.R9", Floor: 2, Doc: "stop signals cannot be lost: a send on a service's stop channel either blocks until taken or goes into a buffered channel", Run: c17r9},
 		},
 	})
 }
@@ -156,6 +157,64 @@ func c17r2(p *Program, r *Report) {
 					}
 				}
 				r.Check(okCount, as, "(*hostConnPool).fill sets filling only when connections are missing", "fillCount > 0 known in the same section", "filling starts without a positive fill count computed under the lock: the pool can grow beyond its size")
+				// ... and that count was computed from the pool's fields inside this critical section (a count taken
+				// before the lock was re-acquired describes a pool another filler may have filled meanwhile)
+				fresh := Solve(ug, Lattice[strset]{
+					Init: strset{}, Join: func(a, b strset) strset { return a.intersect(b) }, Eq: func(a, b strset) bool { return a.eq(b) },
+					Step: func(st strset, step Step) strset {
+						if step.Kind != StNode {
+							return st
+						}
+						for _, c := range callsIn(step.Node) {
+							if _, isMu := isMutexMethod(calleeName(info, c)); isMu {
+								if _, isDefer := step.Node.(*ast.DeferStmt); !isDefer {
+									return strset{}
+								}
+							}
+						}
+						if a2, ok := step.Node.(*ast.AssignStmt); ok && len(a2.Lhs) == len(a2.Rhs) {
+							for j, l2 := range a2.Lhs {
+								id, isId := l2.(*ast.Ident)
+								if !isId {
+									continue
+								}
+								// computed from fields of the pool and from locals that are themselves fresh
+								readsPool, okOperands := false, true
+								ast.Inspect(a2.Rhs[j], func(y ast.Node) bool {
+									switch z := y.(type) {
+									case *ast.SelectorExpr:
+										if p.isFieldOf(info, z, "hostConnPool") {
+											readsPool = true
+										}
+										return false
+									case *ast.Ident:
+										if v, isVar := info.Uses[z].(*types.Var); isVar && !v.IsField() && v.Parent() != nil && v.Parent() != v.Pkg().Scope() {
+											if _, isInt := v.Type().Underlying().(*types.Basic); isInt && !st[z.Name] {
+												okOperands = false
+											}
+										}
+									}
+									return true
+								})
+								if okOperands && (readsPool || len(st) > 0 && mentionsAny(exprStr(a2.Rhs[j]), st)) {
+									st = st.with(id.Name)
+								} else {
+									st = st.without(id.Name)
+								}
+							}
+						}
+						return st
+					},
+				})
+				fs, _ := fresh.Before(as)
+				okFresh := false
+				for cv := range countVars {
+					if fs[cv] {
+						okFresh = true
+					}
+				}
+				r.Check(okFresh, as, "(*hostConnPool).fill computes the number of missing connections in the critical section that starts the fill", "count taken from the pool's fields since the write lock was acquired",
+					"the number of connections to create was computed before the write lock was (re)acquired: another filler can have completed in between, and this one then dials the same connections again (the pool ends up above its configured size)")
 			}
 			return true
 		})
@@ -977,4 +1036,130 @@ func sameCriticalSection(p *Program, fi *FuncInfo, a, b ast.Node, mu string) boo
 		}
 	}
 	return false
+}
+
+func mentionsAny(text string, names strset) bool {
+	for n := range names {
+		if mentions(text, n) {
+			return true
+		}
+	}
+	return false
+}
+
+// c17r9: a background service (heartbeat, debouncer, flusher) stops when it receives from its stop channel. The
+// stopper's send must not be droppable: a `select { case quit <- x: default: }` on an unbuffered channel loses the
+// signal whenever the service is busy (reconnecting, refreshing), and the goroutine then outlives Close.
+func c17r9(p *Program, r *Report) {
+	// stop channels: struct{}-channel fields received from inside a loop
+	stops := map[*types.Var]bool{}
+	p.forEachFunc(false, func(fi *FuncInfo) {
+		if fi.Pkg != p.Root {
+			return
+		}
+		info := fi.Pkg.TypesInfo
+		ast.Inspect(fi.Decl.Body, func(n ast.Node) bool {
+			fs, ok := n.(*ast.ForStmt)
+			if !ok {
+				return true
+			}
+			ast.Inspect(fs.Body, func(x ast.Node) bool {
+				if u, ok := x.(*ast.UnaryExpr); ok && u.Op == token.ARROW {
+					if fv := fieldOf(info, u.X); fv != nil {
+						if ch, isCh := fv.Type().Underlying().(*types.Chan); isCh {
+							if st, isS := ch.Elem().Underlying().(*types.Struct); isS && st.NumFields() == 0 {
+								stops[fv] = true
+							}
+						}
+					}
+				}
+				return true
+			})
+			return true
+		})
+	})
+	// capacities at creation
+	capOf := map[*types.Var][]int64{}
+	p.forEachFunc(false, func(fi *FuncInfo) {
+		info := fi.Pkg.TypesInfo
+		note := func(fv *types.Var, e ast.Expr) {
+			c, ok := ast.Unparen(e).(*ast.CallExpr)
+			if !ok || calleeName(info, c) != "builtin.make" {
+				return
+			}
+			k := int64(0)
+			if len(c.Args) == 2 {
+				if v, isK := constInt(info, c.Args[1]); isK {
+					k = v
+				} else {
+					k = -1
+				}
+			}
+			capOf[fv] = append(capOf[fv], k)
+		}
+		ast.Inspect(fi.Decl.Body, func(n ast.Node) bool {
+			switch x := n.(type) {
+			case *ast.AssignStmt:
+				if len(x.Lhs) == len(x.Rhs) {
+					for i, l := range x.Lhs {
+						if fv := fieldOf(info, l); fv != nil && stops[fv] {
+							note(fv, x.Rhs[i])
+						}
+					}
+				}
+			case *ast.KeyValueExpr:
+				if k, ok := x.Key.(*ast.Ident); ok {
+					if fv, isV := info.Uses[k].(*types.Var); isV && stops[fv] {
+						note(fv, x.Value)
+					}
+				}
+			}
+			return true
+		})
+	})
+	n := 0
+	p.forEachFunc(false, func(fi *FuncInfo) {
+		if fi.Pkg != p.Root {
+			return
+		}
+		info := fi.Pkg.TypesInfo
+		ast.Inspect(fi.Decl.Body, func(x ast.Node) bool {
+			snd, ok := x.(*ast.SendStmt)
+			if !ok {
+				return true
+			}
+			fv := fieldOf(info, snd.Chan)
+			if fv == nil || !stops[fv] {
+				return true
+			}
+			n++
+			name := fi.Name + " stop signal on " + fv.Name() + " cannot be dropped"
+			droppable := false
+			if cc, isCC := p.Parent(snd).(*ast.CommClause); isCC && cc.Comm == ast.Stmt(snd) {
+				if blk, isB := p.Parent(cc).(*ast.BlockStmt); isB {
+					for _, cl := range blk.List {
+						if c2, ok := cl.(*ast.CommClause); ok && c2.Comm == nil {
+							droppable = true
+						}
+					}
+				}
+			}
+			if !droppable {
+				r.OK(snd, name, "blocking send")
+				return true
+			}
+			buffered := len(capOf[fv]) > 0
+			for _, k := range capOf[fv] {
+				if k < 1 {
+					buffered = false
+				}
+			}
+			r.Check(buffered, snd, name, "non-blocking send into a buffered channel",
+				"the stop signal is sent with `select { case "+exprStr(snd.Chan)+" <- ...: default: }` on an unbuffered channel: when the service goroutine is busy (not parked in its select) the signal is dropped and the goroutine keeps running after Close")
+			return true
+		})
+	})
+	if n == 0 {
+		r.Unresolved("no send on a service stop channel found")
+	}
 }
